@@ -39,9 +39,19 @@ def run_one(pid: str, shard: dict, workdir: str, idx: int, timeout: float) -> di
     e["PYTHONDONTWRITEBYTECODE"] = "1"
     t0 = time.time()
     cwd = env.VERIF
-    if shard.get("_cwd") == "empty":
+    if shard.get("_cwd"):
         cwd = os.path.join(workdir, f"cwd{idx}")
         os.makedirs(cwd, exist_ok=True)
+        if shard["_cwd"] == "bait":
+            # a working directory that looks like the package's data directories: none of it is the library's business
+            for sub_, doc in (("iban_registry/zz_site.json", {"ZZ": {"bban_spec": "4!n", "iban_spec": "ZZ2!n4!n", "bban_length": 4, "iban_length": 8, "positions": {"bank_code": [0, 2], "account_code": [2, 4]}},
+                                                                "DE": {"bban_length": 10, "iban_length": 14, "bban_spec": "10!n"}}),
+                              ("bank_registry/zz_site.json", [{"country_code": "DE", "primary": True, "bic": "BAITDEFFXXX", "bank_code": "99999999", "name": "Bait", "short_name": "Bait"}])):
+                for root_ in (cwd, os.path.join(cwd, "schwifty_data"), os.path.join(cwd, ".schwifty")):
+                    pth = os.path.join(root_, sub_)
+                    os.makedirs(os.path.dirname(pth), exist_ok=True)
+                    with open(pth, "w", encoding="utf-8") as fp_:
+                        json.dump(doc, fp_)
     try:
         p = subprocess.run(
             [env.PY, "-X", "faulthandler", *[str(x) for x in shard.get("_pyflags", [])], "-m", "vf.worker", pid, sp, op],
@@ -70,6 +80,34 @@ def run_one(pid: str, shard: dict, workdir: str, idx: int, timeout: float) -> di
     doc["_shard"] = {k: v for k, v in shard.items() if k != "_watchdog_s"}
     doc["_wall"] = round(time.time() - t0, 2)
     return doc
+
+
+ENV_SEEN: dict = {}
+
+
+def discover_env_vars(pkg: str) -> list:
+    """Names of environment variables the package's source mentions (os.environ.get / [] / os.getenv)."""
+    import re  # noqa: PLC0415
+
+    rx = re.compile(r"""(?:environ\.get\(|environ\[|getenv\(|environ\.setdefault\(|in\s+os\.environ)\s*["']([A-Za-z_][A-Za-z0-9_]*)["']|["']([A-Z][A-Z0-9_]*)["']\s+in\s+os\.environ""")
+    names = set()
+    for root, _dirs, files in os.walk(pkg):
+        for fn in files:
+            if fn.endswith(".py"):
+                try:
+                    with open(os.path.join(root, fn), encoding="utf-8") as fp:
+                        for m_ in rx.finditer(fp.read()):
+                            names.add(m_.group(1) or m_.group(2))
+                except OSError:
+                    pass
+    # ... and the names the package is *observed* to look up (monitor on os._Environ.__getitem__ in a probe process)
+    try:
+        e = dict(os.environ, PYTHONPATH=env.VERIF, PYTHONDONTWRITEBYTECODE="1", PYTHONHASHSEED="0")
+        p = subprocess.run([env.PY, "-m", "vf.mon.envwatch"], env=e, cwd=env.VERIF, capture_output=True, text=True, timeout=120)
+        names.update(json.loads(p.stdout.strip().splitlines()[-1]))
+    except Exception:  # noqa: BLE001, S110
+        pass
+    return sorted(n for n in names if n and not n.startswith("PYTHON"))
 
 
 def merge(docs: list[dict]) -> dict:
@@ -209,9 +247,19 @@ def main(argv=None):
                 # ... and once in a process whose wall clock reads 75 years later, started in an empty directory with
                 # an unusual time zone (nothing in the properties depends on when or where the library runs)
                 ce = json.loads(json.dumps(src))
-                ce.update({"_variant": "clock-2101-other-cwd", "_clock_years": 75, "_cwd": "empty", "_env": {"TZ": "Pacific/Kiritimati", "HOME": "/nonexistent"}, "_prelude": True, "_reach": False,
-                           "_name": "clock-2101-of-" + str(src.get("_name"))})
+                ce.update({"_variant": "other-environment", "_clock_years": 75, "_cwd": "bait", "_logging": "DEBUG",
+                           "_env": {"TZ": "Pacific/Kiritimati", "HOME": "/nonexistent", "PYTHONINTMAXSTRDIGITS": "0"}, "_prelude": True, "_reach": False,
+                           "_name": "other-environment-of-" + str(src.get("_name"))})
                 shards.append(ce)
+                # ... and, when the package reads environment variables at all, once with every variable it names set
+                # to an explicit "off" value and once with all of them empty: both must behave like "unset"
+                names = discover_env_vars(env.PKG)
+                ENV_SEEN["names"] = names
+                for val, tag in (("0", "zero"), ("", "empty")) if names else ():
+                    cv = json.loads(json.dumps(src))
+                    cv.update({"_variant": f"environment-variables-{tag}", "_cwd": "bait", "_env": {n_: val for n_ in names}, "_prelude": True, "_reach": False,
+                               "_name": f"environment-variables-{tag}-of-" + str(src.get("_name"))})
+                    shards.append(cv)
         if not replay and meta.get("prelude", True):
             for i_, s_ in enumerate(shards):
                 if i_ % 2 == 1 and "_prelude" not in s_:
@@ -294,6 +342,8 @@ def main(argv=None):
         "shard_wall_s": m["shard_walls"],
         "notes": m["notes"][:8],
     }
+    if "names" in ENV_SEEN:
+        cov["environment_variables_the_package_was_observed_to_read"] = ENV_SEEN["names"]
     cov.update(extra)
     ev = {
         "property_id": pid,
